@@ -8,7 +8,8 @@ Import ListNotations.
 Section Direct.
   Variable S : Type.                               (* a statement, stripped *)
 
-  Inductive line := LOk | LErr | LStatus.          (* "ok..." | "error.../alarm.../!!..." | anything else *)
+  (* "ok..." | an error reply ("error.../alarm.../!!...") answering a statement | anything else | an UNSOLICITED error line *)
+  Inductive line := LOk | LErr | LStatus | LAlarm.
   Inductive phase := Idle | Waiting.
   Inductive outcome := Returned | Raised.
 
@@ -76,8 +77,8 @@ Section Direct.
                 stamps := stamps s ++ [temitted s]; temitted := temitted s |}
     | DevAlarm =>
         Some {| todo := todo s; ph := ph s; ack := ack s; stored := stored s; queue := queue s; dev_pending := dev_pending s;
-                from_dev := from_dev s ++ [LErr]; received := received s; outcomes := outcomes s; termd := termd s; calls := calls s;
-                stamps := stamps s ++ [temitted s]; temitted := Datatypes.S (temitted s) |}
+                from_dev := from_dev s ++ [LAlarm]; received := received s; outcomes := outcomes s; termd := termd s; calls := calls s;
+                stamps := stamps s ++ [temitted s]; temitted := temitted s |}
     | Read =>
         match from_dev s with
         | LOk :: rest =>
@@ -90,6 +91,10 @@ Section Direct.
                     stamps := tl (stamps s); temitted := temitted s |}
         | LStatus :: rest =>
             Some {| todo := todo s; ph := ph s; ack := ack s; stored := stored s; queue := queue s; dev_pending := dev_pending s;
+                    from_dev := rest; received := received s; outcomes := outcomes s; termd := termd s; calls := calls s;
+                    stamps := tl (stamps s); temitted := temitted s |}
+        | LAlarm :: rest =>
+            Some {| todo := todo s; ph := ph s; ack := true; stored := true; queue := queue s; dev_pending := dev_pending s;
                     from_dev := rest; received := received s; outcomes := outcomes s; termd := termd s; calls := calls s;
                     stamps := tl (stamps s); temitted := temitted s |}
         | [] => None
